@@ -230,7 +230,9 @@ class workq:
                 # arrives while the set() notification is still pending on that very
                 # notification, and cancels it when the last earlier waiter goes away
                 j.finish_event.wait()
-            if j.drop:
+            if j.drop and self.id2job.get(j.jobid) is j:
+                # collected: forget this job - once (another waiter may have been quicker), and
+                # not a newer job that meanwhile lives under the same id
                 del self.id2job[j.jobid]
         return jobs
 
